@@ -441,7 +441,8 @@ theorem tickDispatchers_GI (p : List Nat) : ∀ (is : List Nat) (cp : CP), DCI c
     · simp only [hf]; exact ih _ (dispTick_DCI cp i hdc) (dispTick_GI cp i p hdc h)
 
 theorem handleLaunch_GI (cp : CP) (p : List Nat) (h : GI cp p) : GI (handleLaunch cp).1 p := by
-  unfold handleLaunch
+  refine handleLaunch_ind (P := fun c => GI c p) cp ?_ h
+  unfold handleLaunchOld
   cases hdr : cp.drvIn with
   | nil => exact h
   | cons k rest =>
